@@ -436,6 +436,13 @@ def run(ck):
             tk = f.calls(TICK)
             ck.ob("DOM", f.path, "growth-charged", any(f.dominates(tb, bi) for (tb, _) in tk), "growing the return value is preceded by a charge", f.loc(bi))
         cmp_rejecting(ck, f, [("arg", 3)], [("arg", 1), ("call", r"::len$")], "Gt", "offset>len-rejected")
+    # v0 send action: the parameter size limit is inclusive and tested before the parameter is copied
+    for pth in [x for x in c.paths() if re.search(r"::v0::.*Outcome::send$", x)]:
+        f = Fn(c.get(pth))
+        cmp_rejecting(ck, f, [("arg", 6), ("len",)], [("arg", 7)], "Gt", "parameter.len>max_parameter_size-rejected")
+        tv = f.calls(r"to_vec$")
+        cmps = rules.find_cmp(f, [("arg", 6), ("len",)], [("arg", 7)])
+        ck.ob("DOM", f.path, "limit-before-copy", bool(tv) and bool(cmps) and all(f.dominates(cmps[0][0]["bb"], bi) for (bi, _) in tv), "the parameter-size test dominates the copy of the parameter", f.loc())
     f = getfn(ck, "sc", E, E + "::v0::host::track_call")
     if f:
         enf_calls(ck, f, r"checked_sub$", "activation_frames.checked_sub")
